@@ -598,6 +598,24 @@ def family_level_jump():
     return out
 
 
+def family_resubmit_size():
+    """returned message objects submitted again with payloads of ANOTHER size: the size limits apply to what the object
+    carries now (an oversized one is rejected, batches stay within MaxMessageBytes)"""
+    out = []
+    for v in ("0.10.2.0", "0.11.0.0"):
+        cfg = dict(version=v, retryMax=1, leaders=[1], nbrokers=1, maxMsgBytes=1000, flushFreqMs=20)
+        pl = {"7": {"delayMs": 120}}
+        steps = submits([(i, 0) for i in range(1, 7)], size=40) + [{"op": "wait_outcomes", "n": 6, "ms": 3000}]
+        # 7: opens a request that stays in flight; 8..13: six re-used objects now carrying 400 bytes each accumulate behind it
+        steps += [{"op": "submit", "id": 7, "part": 0, "size": 40}, {"op": "sleep", "ms": 40}]
+        steps += [{"op": "resubmit", "id": 7 + k, "from": k, "part": 0, "size": 400} for k in range(1, 7)]
+        steps += [{"op": "wait_outcomes", "n": 13, "ms": 5000}]
+        # 14: a re-used object that is now far too large
+        steps += [{"op": "resubmit", "id": 14, "from": 7, "part": 0, "size": 5000}, {"op": "wait_outcomes", "n": 14, "ms": 3000}, {"op": "close"}]
+        out.append(sc("resubmit-size-%s" % v, "limits", cfg, steps, pl))
+    return out
+
+
 def family_resubmit_ic():
     """re-submission of returned message objects with an interceptor chain configured: a re-submitted object is a new
     message - the chain runs for it once more (and only once)"""
@@ -797,6 +815,15 @@ def family_timer():
                  {"op": "submit", "id": 2, "part": 0, "size": 1200}, {"op": "sleep", "ms": 300}, {"op": "submit", "id": 3, "part": 1, "size": 50}, {"op": "sleep", "ms": 300},
                  {"op": "release", "n": 1}, {"op": "must_outcomes_by", "n": 1, "ms": 3000}, {"op": "wait_outcomes", "n": 3, "ms": 12000}, {"op": "close"}]
         out.append(sc("timer-ready-then-dropped-%s" % v, "timer", cfg, steps, pl2))
+        # broker latency longer than Flush.Frequency: the pending buffer's timer fires while a request is in flight; the late
+        # response bounces every partition of the pending buffer (the buffer is emptied); a second partition keeps the broker
+        # worker alive - the messages that come back after the back-off must still be flushed by a (new) timer
+        cfg = dict(version=v, retryMax=2, leaders=[1, 1], nbrokers=1, flushFreqMs=100, flushMsgs=50, backoffMs=300)
+        pl3 = {"1": {"hold": True, "part": {"0": "retry"}}}
+        steps = [{"op": "submit", "id": 1, "part": 0}, {"op": "submit", "id": 2, "part": 1}, {"op": "wait_req", "n": 1, "ms": 2500},
+                 {"op": "submit", "id": 3, "part": 0}, {"op": "sleep", "ms": 400}, {"op": "release", "n": 1},
+                 {"op": "must_outcomes_by", "n": 3, "ms": 4000}, {"op": "close"}]
+        out.append(sc("timer-spent-after-bounce-%s" % v, "timer", cfg, steps, pl3))
     return out
 
 
